@@ -345,6 +345,24 @@ def run(ck, prog, ctx):
 
     # ---- constructors: a field named like a parameter is initialised from that parameter, not from a sibling of the same type
     ck.rule("CTOR", "in a struct literal, the field `f` of a function with a parameter `f` derives from that parameter (DESIGN 3.9)")
+    # the public wrapper hands its two sets and its two strategy objects to the group similarity in the documented positions
+    hs = prog.one(r"^set::HpoSet::<'a>::similarity$")
+    if hs is not None:
+        pvw = Prov(prog, inline=False)
+        calcs = [(bi, t) for bi, t in hs.calls() if (t.callee.res or "").endswith("::calculate") and "GroupSimilarity" in (t.callee.res or "") and len(t.args) == 3]
+        news = [(bi, t) for bi, t in hs.calls() if (t.callee.res or "").endswith("GroupSimilarity::<T, C>::new") and len(t.args) == 2]
+        if len(calcs) != 1:
+            ck.undecided("ROLE", "HpoSet::similarity/args", "the call of GroupSimilarity::calculate is not recognised", where=hs.where())
+        else:
+            bi, t = calcs[0]
+            a, b_ = params_of(pvw.of_operand(hs, t.args[1]), hs.id), params_of(pvw.of_operand(hs, t.args[2]), hs.id)
+            ok = a == {1} and b_ == {2}
+            ck.ob("ROLE", "HpoSet::similarity/args", ok, "HpoSet::similarity computes calculate(%s, %s) (expected (self, other): the term similarity is evaluated as sim(self_i, other_j), which matters for an asymmetric measure)" % (
+                "self" if a == {1} else "other" if a == {2} else sorted(a), "other" if b_ == {2} else "self" if b_ == {1} else sorted(b_)), where=hs.where(t.line))
+        for bi, t in news:
+            c_, s_ = params_of(pvw.of_operand(hs, t.args[0]), hs.id), params_of(pvw.of_operand(hs, t.args[1]), hs.id)
+            ck.ob("ROLE", "HpoSet::similarity/strategies", c_ == {4} and s_ == {3}, "GroupSimilarity::new receives (combiner, similarity) from the parameters %s, %s (expected the `combiner` and `similarity` arguments)" % (sorted(c_), sorted(s_)), where=hs.where(t.line))
+
     ck.rule("GUARD", "numeric conversion helpers are exact or fail (DESIGN 3.5)")
     from props.shared import check_exact_conversion
     check_exact_conversion(ck, "GUARD", prog, "similarity::usize_to_f32", "the matrix dimensions")
